@@ -69,11 +69,14 @@ def obs_get(part, path, variant=0, disturb=None, rnd=None):
             f = part.get_file(path)
             out = []
             while True:
-                piece = f.read(rnd.choice([1, 2, 3, 7, 64]) if rnd else 5)
+                # small chunks first; a big file is finished in chunks around the 8 KiB buffer size and larger
+                k = (rnd.choice([1, 2, 3, 7, 64]) if rnd else 5) if len(out) < 12 else \
+                    (rnd.choice([4096, 8191, 8192, 8193, 65536]) if rnd else 8192) * (1 if len(out) < 40 else 16)
+                piece = f.read(k)
                 if not piece:
                     break
                 out.append(piece)
-                if disturb is not None:
+                if disturb is not None and len(out) < 60:
                     disturb()
             f.close()
             data = b"".join(out)
